@@ -430,6 +430,46 @@ pub fn handle_violations(
                     path = write_replay(&with_prefix);
                     minimised = with_prefix;
                 } else {
+                    if v.get("library_level_blocking").and_then(|b| b.as_bool()) == Some(true) {
+                        // not exactly repeatable (see below): a few more attempts with the
+                        // unminimised case before giving up on it
+                        let mut hit = false;
+                        for _ in 0..6 {
+                            let (c, o) = replay_in_fresh_process(exe, &opath);
+                            if c == 1 && o.contains(&format!("class={}", class)) {
+                                hit = true;
+                                break;
+                            }
+                        }
+                        if hit {
+                            let mut original = v.clone();
+                            original.set("confirmed_in_fresh_process", Json::Bool(true));
+                            original.set("note", Json::s("threads blocked in the library's own locks run outside the scheduler's control between their release and their next yield point; this replay reproduces the violation in some attempts, not in all"));
+                            let path = write_replay(&original);
+                            let prop = original.get("property").and_then(|p| p.as_str()).unwrap_or("");
+                            if let Some(what) = known.matches(&original) {
+                                println!("KNOWN-FINDING: property={} {}", prop, what);
+                                verdict.known += 1;
+                            } else {
+                                println!("VIOLATION property={} replay={}", prop, path.display());
+                                if let Some(s) = original.get("summary").and_then(|s| s.as_str()) {
+                                    println!("  {}", s);
+                                }
+                                verdict.new_violations += 1;
+                            }
+                            continue;
+                        }
+                        // the run contained threads blocked in the library's own locks; between
+                        // their release and their next yield point they ran outside the
+                        // scheduler's control, so this schedule is not exactly repeatable.
+                        // Not reported (other violations of the batch, or the Miri engine, decide)
+                        eprintln!(
+                            "note: a violation observed under library-level blocking did not reproduce from its replay file ({}); not reported",
+                            ppath.display()
+                        );
+                        reported_signatures.pop();
+                        continue;
+                    }
                     // a violation that reproduces in no way from its replay file is a harness problem
                     eprintln!(
                         "HARNESS-ERROR: replay of {} did not reproduce, neither alone (exit {}) nor after its process prefix (exit {}, output: {})",
